@@ -50,6 +50,7 @@ var profiles = map[string]profile{
 	"C12": {name: "C12", wKey: 100, wRollback: 2, wIndex: 1, wSnapshot: 1, wReplica: 1, maxSteps: 30},
 	"C15": {name: "C15", wReplica: 2, wRollback: 3, wFailIns: 1, wBulk: 2, wDropCol: 3, wIndex: 1, maxSteps: 26},
 	"C16": {name: "C16", wSort: 100, wFilter: 5, wIndex: 2, wBulk: 2, wSnapshot: 1, wReplica: 1, maxSteps: 30},
+	"C17": {name: "C17", wReplica: 6, wSnapshot: 4, wBulk: 3, wRollback: 1, wIndex: 1, wFilter: 1, maxSteps: 30},
 	"C19": {name: "C19", wTrigger: 100, wRollback: 3, wBulk: 1, wReplica: 1, wSnapshot: 1, maxSteps: 30},
 	"dirty": {name: "dirty", wIndex: 3, wFilter: 3, wKey: 1, wSort: 1, wTrigger: 1, wSnapshot: 1, wReplica: 2, wRollback: 3, wFailIns: 3, wBulk: 2, wObserve: 1, wDropCol: 1, dirty: true, maxSteps: 30},
 }
@@ -371,8 +372,16 @@ func (g *gen) setup() {
 			}
 		}
 	}
+	// the deadline column: the built-in int64 column "expire" (what SetTTL stores into and Extend merges into),
+	// written and merged like any other column so that its values go through commit, replay and snapshot
+	if g.p.name == "C17" {
+		for i := 0; i < 3; i++ {
+			g.cols = append(g.cols, genCol{"expire", "int64", ""})
+		}
+		g.feat("deadline-column")
+	}
 	// cheap multi-chunk population: rows around the 16K-chunk edges, inserted through Replay
-	if r.Intn(3) == 0 {
+	if r.Intn(3) == 0 || (g.p.name == "C17" && r.Intn(3) > 0) {
 		pool := []uint32{5, 63, 64, 16383, 16384, 16385, 16390, 20000, 32767, 32768, 32769, 40000}
 		var offs []string
 		for _, o := range pool {
